@@ -299,7 +299,19 @@ func (lg *locGen) op() map[string]interface{} {
 func (lg *locGen) expiry(m map[string]interface{}) {
 	r := lg.r
 	secs := float64(1 + r.Intn(3))
-	switch r.Intn(6) {
+	switch r.Intn(7) {
+	case 6:
+		// instants at or before the UNIX epoch (an expiry like any other: long past)
+		switch r.Intn(4) {
+		case 0:
+			m["expires"] = -1.0
+		case 1:
+			m["expires"] = "1969-12-31T23:59:59Z"
+		case 2:
+			m["ttl"] = -4000000000.0
+		default:
+			m["expires"] = "1970-01-01T00:00:00Z" // exactly the epoch: 0 means "no expiry" to the engine
+		}
 	case 0:
 		m["ttl"] = secs
 	case 1:
@@ -353,6 +365,12 @@ func genLocCase(r *rand.Rand, prof string) Case {
 			l["hooks"] = true
 			l["persistent"] = r.Intn(2) == 0
 		}
+		if prof == "expiry" && l["kind"] == "indexed" && r.Intn(2) == 0 {
+			// (indexed state only, for now: LinearState.search/FindRules return the purge's error, which
+			// the model's [expire] does not propagate yet)
+			// a storage fault somewhere in the history: with luck on the purge of an expired item
+			l["fail"] = r.Intn(16)
+		}
 		if prof == "durable" {
 			l["storage"] = pick(r, "mem", "bolt").(string)
 			if r.Intn(3) != 0 {
@@ -377,11 +395,68 @@ func genLocCase(r *rand.Rand, prof string) Case {
 		}
 		return Case{"profile": prof, "locs": locs, "ops": ops, "child": true}
 	}
+	if prof == "expiry" && obj(locs[0])["kind"] == "indexed" && r.Intn(4) == 0 {
+		// scripted opening: the storage fails exactly on the purge of an expired item, which a
+		// search (or an event, for a rule) is the first to observe
+		obj(locs[0])["fail"] = 2
+		if r.Intn(2) == 0 {
+			ops = append(ops,
+				map[string]interface{}{"loc": "L0", "op": "addfact", "id": "e0", "fact": map[string]interface{}{"k": "x", "ttl": 1.0}},
+				map[string]interface{}{"loc": "L0", "op": "addfact", "id": "e1", "fact": map[string]interface{}{"k": "x"}},
+				map[string]interface{}{"loc": "L0", "op": "search", "inherited": false, "pattern": map[string]interface{}{"k": "?v"}, "sleep": 2})
+		} else {
+			rule := rulePat(map[string]interface{}{"k": "?v"})
+			rule["ttl"] = 1.0
+			ops = append(ops,
+				map[string]interface{}{"loc": "L0", "op": "addrule", "id": "e0", "rule": rule},
+				map[string]interface{}{"loc": "L0", "op": "addrule", "id": "e1", "rule": rulePat(map[string]interface{}{"k": "?v"})},
+				map[string]interface{}{"loc": "L0", "op": "event", "event": map[string]interface{}{"k": "x"}, "sleep": 2})
+		}
+		ops = append(ops,
+			map[string]interface{}{"loc": "L0", "op": "getfact", "id": "e0"},
+			map[string]interface{}{"loc": "L0", "op": "storeids"},
+			map[string]interface{}{"loc": "L0", "op": "reload"},
+			map[string]interface{}{"loc": "L0", "op": "storeids"},
+			map[string]interface{}{"loc": "L0", "op": "getfact", "id": "e0"})
+	}
+	if prof == "durable" && r.Intn(4) == 0 {
+		// scripted opening: a parent fact with two dependents, then its removal, with the injected
+		// storage failure aimed at one of the storage calls of that removal (the parent's own
+		// Remove or one of the cascade's), then reads, a reload and the raw storage
+		l0 := obj(locs[0])
+		l0["fail"] = 3 + r.Intn(3)
+		// (a chain p0 <- d0 <- d1, not a fan: the order in which the dependents of ONE id are removed
+		// is Go's map order, and a failure in the middle of a fan would leave either of them)
+		dep := func(id, on string) map[string]interface{} {
+			f := lg.fact()
+			f["deleteWith"] = []interface{}{on}
+			return map[string]interface{}{"loc": "L0", "op": "addfact", "id": id, "fact": f}
+		}
+		ops = append(ops,
+			map[string]interface{}{"loc": "L0", "op": "addfact", "id": "p0", "fact": lg.fact()},
+			dep("d0", "p0"), dep("d1", "d0"),
+			map[string]interface{}{"loc": "L0", "op": "remfact", "id": "p0"},
+			map[string]interface{}{"loc": "L0", "op": "getfact", "id": "d0"},
+			map[string]interface{}{"loc": "L0", "op": "getfact", "id": "d1"},
+			map[string]interface{}{"loc": "L0", "op": "storeids"},
+			map[string]interface{}{"loc": "L0", "op": "reload"},
+			map[string]interface{}{"loc": "L0", "op": "getfact", "id": "d0"},
+			map[string]interface{}{"loc": "L0", "op": "getfact", "id": "d1"},
+			map[string]interface{}{"loc": "L0", "op": "getfact", "id": "p0"})
+	}
 	if nlocs > 1 && prof != "forest" {
 		ops = append(ops, map[string]interface{}{"loc": "L0", "op": "setparents", "parents": []interface{}{"L1"}})
 	}
 	for k := 0; k < nops; k++ {
-		ops = append(ops, lg.op())
+		o := lg.op()
+		ops = append(ops, o)
+		// the raw contents of the storage are observed too (C06: what a reload will see; C07: expired
+		// items are purged from storage once observed): after every reload and now and then
+		if prof == "durable" || prof == "expiry" || prof == "cascade" {
+			if str(o["op"]) == "reload" || r.Intn(5) == 0 {
+				ops = append(ops, map[string]interface{}{"loc": o["loc"], "op": "storeids"})
+			}
+		}
 	}
 	c := Case{"profile": prof, "locs": locs, "ops": ops}
 	if prof == "durable" && r.Intn(2) == 0 {
@@ -707,6 +782,23 @@ func execLocOp(w *locWorld, o map[string]interface{}) {
 			res = errRes(err)
 		} else {
 			res = map[string]interface{}{"ok": true, "n": n}
+		}
+	case "storeids":
+		// the raw contents of the location's storage (not through the fault injector): ids only
+		pairs, err := w.stores[name].Load(ctx, name)
+		if err != nil {
+			res = errRes(err)
+		} else {
+			ids := make([]string, 0, len(pairs))
+			for _, p := range pairs {
+				ids = append(ids, string(p.K))
+			}
+			sort.Strings(ids)
+			out := make([]interface{}, 0, len(ids))
+			for _, id := range ids {
+				out = append(out, id)
+			}
+			res = map[string]interface{}{"ok": true, "ids": out}
 		}
 	case "setreadonly":
 		loc.SetReadOnly(ctx, boolean(o["ro"]))
